@@ -289,6 +289,23 @@ theorem bound_stable (det : Detector) (dss : List Features) (reg : List Cls)
   obtain ⟨f, hf⟩ := Option.isSome_iff_exists.1 hsome
   simp [step, hf, hb]
 
+/-- the caller's view: once `dataset.ems` has returned an instance, it returns that instance
+after any further operations -/
+theorem access_stable (det : Detector) (dss : List Features) (reg : List Cls)
+    (ops₁ ops₂ : List Op) (d k : Nat) :
+    let w₁ := run det (World.init dss reg) ops₁
+    (step det w₁ (.access d)).2 = .obj k →
+    let w₂ := run det (step det w₁ (.access d)).1 ops₂
+    step det w₂ (.access d) = (w₂, .obj k) := by
+  intro w₁ h w₂
+  have hb := access_attaches det w₁ d k h
+  have hrun : (step det w₁ (.access d)).1 = run det (World.init dss reg) (ops₁ ++ [.access d]) := by
+    rw [run_append]; rfl
+  have := bound_stable det dss reg (ops₁ ++ [.access d]) ops₂ d k (by rw [← hrun]; exact hb)
+  simp only at this
+  rw [← hrun] at this
+  exact this.2
+
 /-- the same from an arbitrary world, well-formed or not: an attached instance is never
 detached or replaced -/
 theorem bound_stable_any_world (det : Detector) (w : World) (ops : List Op) (d k : Nat)
